@@ -144,6 +144,9 @@ func DescribeDir(c simnet.DirConfig) string {
 	if c.Cap < 0 {
 		capS = "unbounded"
 	}
+	if c.EmptyReads > 0 {
+		return fmt.Sprintf("cap=%s frag=%s lat=%s empty-reads=1/%d", capS, frag, lat, c.EmptyReads)
+	}
 	return fmt.Sprintf("cap=%s frag=%s lat=%s", capS, frag, lat)
 }
 
